@@ -305,43 +305,8 @@ ORACLES = {"swift": oracle_swift, "scala": oracle_scala, "go": oracle_go, "types
 
 # ----------------------------------------------------------------------------- the Known classes (mirror of the Lean predicates)
 
-def sc_unsigned_in(t):
-    k = t[0]
-    if k == "simple":
-        return False
-    if k == "prim":
-        return t[1] in UNSIGNED
-    if k == "generic":
-        return any(sc_unsigned_in(x) for x in t[2])
-    if k == "map":
-        return sc_unsigned_in(t[1]) or sc_unsigned_in(t[2])
-    return sc_unsigned_in(t[1])
-
-
-def sc_within(t):
-    k = t[0]
-    if k == "generic":
-        cands = t[2]
-    elif k in ("option", "vec"):
-        cands = [t[1]]
-    elif k == "map":
-        cands = [t[1], t[2]]
-    elif k == "simple":
-        cands = []
-    else:
-        cands = [t]
-    return any(c[0] == "prim" and c[1] in UNSIGNED for c in cands)
-
-
 def all_types(desc):
     return [t for t, _, _ in desc["fields"]] + desc["payloads"] + [t for t, _ in desc["aliases"]]
-
-
-def known_scala(case):
-    ts = all_types(case["desc"])
-    scanned = ts + ([("simple", "T")] if case["desc"]["wrap"] else [])
-    deep = any(sc_unsigned_in(t) and not sc_within(t) for t in ts)
-    return "scala-unsigned-scan-depth" if deep and not any(sc_within(t) for t in scanned) else None
 
 
 def py_type(t, maps):
@@ -395,9 +360,6 @@ def known_python(case):
     """the classes of C12.Known_python that the case falls into (the printer state is simulated from the input)"""
     d, maps = case["desc"], case["cfg"].get("type_mappings", {})
     out = []
-    declared = {"T"} if d["generic_items"] else set()
-    if any(g and not set(g) <= declared for _, g in d["aliases"]):
-        out.append("py-alias-typevar")
     registered = set()
     for t in all_types(d):
         py_special_registrations(t, maps, registered)
@@ -414,9 +376,7 @@ def known_python(case):
 
 def known_classes(case):
     lang = case["lang"]
-    if lang == "scala":
-        k = known_scala(case)
-        return [k] if k else []
+    # Scala: none any more (C12_scala is a full theorem since the unsigned-integer scan became recursive)
     if lang == "python":
         return known_python(case)
     if lang == "kotlin":
@@ -433,10 +393,6 @@ def explained(case, names, classes):
     if lang != "python":
         return bool(classes)
     rest = set(names)
-    d = case["desc"]
-    if "py-alias-typevar" in classes:
-        # `G[T] = ...` defines neither the type variable nor (being a subscript assignment) the alias itself
-        rest -= {"T"}
     if "py-default-custom-fns" in classes:
         rest -= {"parse_rfc3339", "serialize_datetime_data", "deserialize_binary_data", "serialize_binary_data"}
     if "py-mapped-datetime-import" in classes:
@@ -445,7 +401,7 @@ def explained(case, names, classes):
 
 
 def item_names(case):
-    """the names of the user's own items (an undefined one is C10's / C11's business: `G[T] = ..` defines no `G`)"""
+    """the names of the user's own items (an undefined one is C10's / C11's business)"""
     return {it["ident"] for f in case["files"] for it in f["file"]["items"]}
 
 
@@ -574,7 +530,7 @@ def evaluate(check, cases, label):
             if agree:
                 check.violation("%s: the input lies in %s but the implementation's output defines everything it uses, and "
                                 "the model agrees with it" % (lang, classes), case=replay, impl=ra, model=ma,
-                                failing_input=False, broken="exactness of TsV.C12.Known_* (C12_scala_exact / C12_python_exact)")
+                                failing_input=False, broken="exactness of TsV.C12.Known_* (C12_python_exact / C12_kotlin_exact)")
             else:
                 check.notes.append("%s: known class %s no longer fails (repaired upstream?)" % (lang, classes))
             continue
@@ -585,7 +541,7 @@ def evaluate(check, cases, label):
             check.violation("%s: generated text differs from the model (oracle passes on the implementation's text): %s"
                             % (lang, d or "%s vs %s" % (str(ma)[:200], str(ra)[:200])), case=replay, impl=ra, model=ma,
                             failing_input=False, broken="correspondence L2 generate_types (theorems TsV.C12.C12_partial, "
-                            "C12_swift, C12_go, C12_typescript, C12_scala_exact, C12_python_exact, C12_kotlin_partial)")
+                            "C12_swift, C12_go, C12_typescript, C12_scala, C12_python_exact, C12_kotlin_partial)")
         if len(check.samples) < 6 and trig and c["multi"] and lang in ("swift", "python"):
             check.sample({"lang": lang, "source": src, "outputs": {k: v[-400:] for k, v in outputs.items()}})
 
@@ -614,8 +570,6 @@ def relevant(classes, names, lang):
         return classes
     out = []
     for k in classes:
-        if k == "py-alias-typevar" and "T" in names:
-            out.append(k)
         if k == "py-default-custom-fns" and names & {"parse_rfc3339", "serialize_datetime_data",
                                                      "deserialize_binary_data", "serialize_binary_data"}:
             out.append(k)
@@ -630,11 +584,23 @@ def chains(maxlen):
 
 
 WITNESSES = [
-    ("scala-unsigned-scan-depth", "scala", [("field", ("Vec", "Vec"), "u8")], None),
-    ("py-alias-typevar", "python", [("alias", ("Vec",), "T")], None),
     ("py-default-custom-fns", "python", [("field_default", (), "OffsetDateTime")], None),
     ("py-mapped-datetime-import", "python", [("field", (), "Stamp")], None),
     ("kotlin-empty-package", "kotlin", [("field", (), "u8")], {"package": ""}),
+]
+
+
+# the witnesses of the repaired findings scala-unsigned-scan-depth (c7871b1) and py-alias-typevar (614135b): now ordinary
+# inputs that must pass the oracle (and on which model and implementation must agree)
+REGRESSIONS = [
+    ("scala", [("field", ("Vec", "Vec"), "u8")]),
+    ("scala", [("field", ("Array",), "u16")]),
+    ("scala", [("alias", ("Slice",), "u16")]),
+    ("scala", [("payload", ("Option", "Vec"), "u32")]),
+    ("scala", [("variant_field", ("Map", "Vec"), "u8")]),
+    ("scala", [("field", ("Wrap", "Vec"), "u8")]),
+    ("python", [("alias", ("Vec",), "T")]),
+    ("python", [("alias", ("Map", "Option"), "T")]),
 ]
 
 
@@ -690,6 +656,7 @@ def run(check):
     for kid, lang, entries, cfg in WITNESSES:
         if check.known_open(kid) and kid not in check.known_hit:
             check.notes.append("witness of %s no longer fails" % kid)
+    evaluate(check, [make_case(entries, lang, False) for lang, entries in REGRESSIONS], "regression")
     with multiprocessing.get_context("fork").Pool(len(LANGS)) as pool:
         for events in pool.imap(worker, [(lang, check.thorough, depth, mdepth, sorted(check.open)) for lang in LANGS]):
             replay_events(check, events)
